@@ -21,6 +21,8 @@ import (
 	epochstypes "github.com/ExocoreNetwork/exocore/x/epochs/types"
 	sdk "github.com/cosmos/cosmos-sdk/types"
 	"github.com/ethereum/go-ethereum/common"
+
+	oraclekeeper "github.com/ExocoreNetwork/exocore/x/oracle/keeper"
 )
 
 func init() { register("oracle_restart", domOracleC14) }
@@ -32,6 +34,8 @@ type c14Block struct {
 	open map[int]uint64
 	step time.Duration
 	pre  func(o *orc) // real-application action before the transactions (no model op: its effect reaches the model as the validator updates of a later EndBlock)
+	// refused MsgUpdateParams delivered before / after the block's transactions (dom_oracle_params.go; model op orc.updparams.rej)
+	rejPre, rejPost []orcRej
 }
 
 type c14Trace struct {
@@ -40,6 +44,8 @@ type c14Trace struct {
 	hashes  []string
 	safeAt  []bool // restart after this block satisfies the partial theorem's hypothesis
 	nUpd    []int  // number of validator updates x/dogfood returned at this block's EndBlock
+	memP    []string // full dump of the params the in-memory aggregator context holds after this block (hook VerifDumpAgcParams)
+	nRej    []int    // refused parameter updates delivered in this block
 }
 
 // runC14 executes the blocks; restartAfter = index of the block after which (post BeginBlock of the
@@ -69,9 +75,21 @@ func runC14Cfg(env *Env, seed uint64, spec orcSpec, mutateCfg func(*ChainCfg), b
 			blk.pre(o)
 		}
 		var cls []string
+		nRej := 0
+		for _, r := range blk.rejPre {
+			if o.updParamsRej(r) {
+				nRej++
+			}
+		}
 		for _, t := range blk.txs {
 			cls = append(cls, d.sendTx(t, blk.open))
 		}
+		for _, r := range blk.rejPost {
+			if o.updParamsRej(r) {
+				nRej++
+			}
+		}
+		tr.nRej = append(tr.nRej, nRej)
 		tr.classes = append(tr.classes, cls)
 		tr.nUpd = append(tr.nUpd, 0)
 		upd, halted := d.endBlock()
@@ -81,6 +99,7 @@ func runC14Cfg(env *Env, seed uint64, spec orcSpec, mutateCfg func(*ChainCfg), b
 		d.applyUpdates(upd)
 		tr.nUpd[len(tr.nUpd)-1] = len(upd)
 		tr.endObs = append(tr.endObs, o.fullObs())
+		tr.memP = append(tr.memP, oraclekeeper.VerifDumpAgcParams())
 		// hypothesis of C14_partial at this point: no feeder's window is in a state the replay log
 		// cannot reproduce (closed inside its window, or a validator with two accepted messages)
 		safe := true
@@ -177,6 +196,22 @@ func c14Compare(env *Env, spec orcSpec, a, b *c14Trace, from int, tag string, hi
 			}
 		}
 	}
+	// every field of the params the two processes hold in memory (chains, tokens, sources, rules, feeders)
+	for i := from; i < len(a.memP) && i < len(b.memP); i++ {
+		if a.memP[i] != b.memP[i] {
+			x, y := a.memP[i], b.memP[i]
+			k := 0
+			for k < len(x) && k < len(y) && x[k] == y[k] {
+				k++
+			}
+			lo := k - 60
+			if lo < 0 {
+				lo = 0
+			}
+			env.Violate("C14.equiv", "restart-diverged:memory-params"+tag, fmt.Sprintf("block +%d after restart: the params held by the in-memory aggregator context differ: …%s (continuous) vs …%s (restarted)", i-from+1, firstN(x[lo:], 200), firstN(y[lo:], 200)), hist)
+			return false
+		}
+	}
 	if memAt >= 0 {
 		env.Violate("C14.equiv", "restart-diverged:memory"+tag, fmt.Sprintf("block +%d after restart: in-memory aggregator/cache/log differ although store and results agree to the end of the history: %s", memAt-from+1, memWhat), hist)
 		return false
@@ -222,8 +257,14 @@ func c14DirectedCfg(env *Env, name, tag string, spec orcSpec, nb, restartAfter i
 	env.Outcome("directed-" + name + ":" + firstN(strings.SplitN(r, "|", 2)[0], 20))
 	hist := []string{"orc.reset", "# directed " + name + ": same inputs, restart after block " + fmt.Sprint(restartAfter+1)}
 	for _, blk := range blocks {
+		for _, r := range blk.rejPre {
+			hist = append(hist, fmt.Sprintf("refused MsgUpdateParams %+v", r))
+		}
 		for _, t := range blk.txs {
 			hist = append(hist, fmt.Sprintf("tx %+v", t))
+		}
+		for _, r := range blk.rejPost {
+			hist = append(hist, fmt.Sprintf("refused MsgUpdateParams %+v", r))
 		}
 		hist = append(hist, "end")
 	}
@@ -356,6 +397,40 @@ func domOracleC14(env *Env) error {
 				return ""
 			})
 	}
+	if env.Int("rejparams", 0) == 1 {
+		// a REFUSED parameter update (store untouched) must leave the process what a restart rebuilds. Block 4:
+		// MsgUpdateParams{TokenFeeders: [{TokenID: 1, EndBlock: 16}]} - 16 is the base block of a round of the feeder
+		// (start 2, interval 7): UpdateTokenFeeder accepts the edit, Validate refuses ("invalid EndBlock") - together
+		// with an asset-id edit of token 1; then the other refusal reasons. Restart in block 6. Prices are reported for
+		// the rounds based at 9 and 16 and at block 17 (refused on a node that ended the feeder at 16).
+		c14DirectedCfg(env, "refused-params-update", ":refused-params-update", base, 20, 4, nil,
+			func(d *orcDriver, h uint64) c14Block {
+				blk := c14Block{step: 2 * time.Second}
+				switch h {
+				case 4:
+					blk.rejPre = []orcRej{{kind: "endblock-in-window", tok: 1, salt: 1}}
+					for i, k := range orcParamRejKinds {
+						blk.rejPost = append(blk.rejPost, orcRej{kind: k, tok: 1, salt: 10 + i})
+					}
+				case 10:
+					blk.txs = []orcTx{mkB(d, 0, 9, 1, "9", "2")}
+				case 11:
+					blk.rejPre = []orcRej{{kind: "maxsize-negative", tok: 1, salt: 2}}
+					blk.txs = []orcTx{mkB(d, 1, 9, 1, "9", "2")}
+				case 17:
+					blk.txs = []orcTx{mkB(d, 0, 16, 1, "10", "3")}
+				case 18:
+					blk.txs = []orcTx{mkB(d, 1, 16, 1, "10", "3")}
+				}
+				return blk
+			},
+			func(a *c14Trace) string {
+				if len(a.nRej) < 4 || a.nRej[3] < 8 {
+					return "refused-updates-not-delivered"
+				}
+				return ""
+			})
+	}
 	if env.Int("f14d", 0) == 1 {
 		// F-14d: a chain younger than MaxNonce. `block - uint64(common.MaxNonce)` in cacheMsgs.commit wraps
 		// for block < MaxNonce, `b > huge` is false for every index entry, and the commit of block 3 removes
@@ -414,6 +489,8 @@ func domOracleC14(env *Env) error {
 		var blocks []c14Block
 		nb := 14 + rng.Intn(maxBlocks)
 		genRng := NewRNG(seed + 77)
+		rejRng := NewRNG(seed + 991) // refused parameter updates: a stream of their own (rejparams=1)
+		rejOn := env.Int("rejparams", 0) == 1
 		// every second history (valset=1): minute epochs and validator-set changes through x/dogfood -
 		// power changes, pure removals (opt-out), re-additions - with restarts right after each of them
 		minute := env.Int("valset", 0) == 1 && hi%2 == 0
@@ -455,6 +532,16 @@ func domOracleC14(env *Env) error {
 				}
 			}
 			blk := c14Block{txs: txs, open: open, step: time.Duration(1+genRng.Intn(4)) * time.Second}
+			if rejOn && rejRng.Chance(1, 4) {
+				for j := 1 + rejRng.Intn(2); j > 0; j-- {
+					r := orcRej{kind: orcParamRejKinds[rejRng.Intn(len(orcParamRejKinds))], tok: uint64(1 + rejRng.Intn(len(spec.TokenDec))), salt: rejRng.Intn(1000)}
+					if rejRng.Bool() {
+						blk.rejPre = append(blk.rejPre, r)
+					} else {
+						blk.rejPost = append(blk.rejPost, r)
+					}
+				}
+			}
 			if minute {
 				if genRng.Chance(1, 5) {
 					if act, ok := d.vsPick(); ok {
@@ -485,7 +572,19 @@ func domOracleC14(env *Env) error {
 				nChange++
 			}
 		}
+		// ... and the block right after a refused parameter update
+		nRejPt := 0
+		for k, nr := range a.nRej {
+			if nr > 0 && k >= 1 && k < nb-2 && !seenPt[k] && nRejPt < 2 {
+				points = append(points, k)
+				seenPt[k] = true
+				nRejPt++
+			}
+		}
 		for _, k := range points {
+			if k < len(a.nRej) && a.nRej[k] > 0 {
+				env.Outcome("restart-right-after-refused-params-update")
+			}
 			if k < len(a.nUpd) && a.nUpd[k] > 0 {
 				env.Outcome("restart-right-after-valset-change")
 			}
